@@ -37,7 +37,10 @@ def generate(tier, rng):
     other = dict(t=dict(letter="t", name="time", items=[2000, 2001, 2002, 2003]), r=dict(letter="r", name="region", items=["EU", "CN"]),
                  r3=dict(letter="r", name="region", items=["EU", "US", "CN"]))
     variants = {"same": [base["t"], base["r"]], "longer time": [other["t"], base["r"]], "other items": [base["t"], other["r"]],
-                "more items": [base["t"], other["r3"]], "permuted": [base["r"], base["t"]], "fewer dims": [base["t"]]}
+                "more items": [base["t"], other["r3"]], "permuted": [base["r"], base["t"]], "fewer dims": [base["t"]],
+                # the same letters and numbers of items, but the items in another order: values would be combined position by position
+                "items in another order": [base["t"], dict(base["r"], items=list(reversed(base["r"]["items"])))],
+                "time items reversed": [dict(base["t"], items=list(reversed(base["t"]["items"]))), base["r"]]}
     for cls in ("SimpleFlowDrivenStock", "InflowDrivenDSM", "StockDrivenDSM"):
         for which in ("stock", "inflow", "outflow", "lifetime"):
             if which == "lifetime" and cls == "SimpleFlowDrivenStock":
@@ -59,11 +62,14 @@ def generate(tier, rng):
         want = [len(d["items"]) for d in dd_]
         m = int(np.prod(want)) if want else 1
         shapes = {tuple(want), (m,), (1, m), (m, 1), tuple(want) + (1,), (1,) + tuple(want), tuple(want[::-1]), (1,), (1, 1), (1, 1, 1), (), (2,), (m + 1,)}
-        for shp in sorted(shapes):
-            for via in ("ctor", "set_values", "assign", "scalar"):
+        for si, shp in enumerate(sorted(shapes)):
+            for vi, via in enumerate(("ctor", "set_values", "assign", "scalar")):
                 if via == "scalar" and dd_:
                     continue
                 cases.append(dict(stream="validators", coq=False, kind="shape", dims=dd_, shape=list(shp), via=via))
+                # the same shapes in arrays of another type (whole numbers, single precision, a mask)
+                cases.append(dict(stream="validators", coq=False, kind="shape", dims=dd_, shape=list(shp), via=via,
+                                  dtype=["int64", "float32", "bool", "int32"][(si + vi) % 4]))
     # right-hand sides that cannot be converted (a Python list or a text array whose LAST element is not a number): the call
     # raises, and the target stays exactly as it was — also not partly overwritten
     for dd_ in ([base["r"]], [base["t"], base["r"]]):
@@ -104,6 +110,8 @@ def run_impl(case):
     if case.get("kind") == "shape":
         dims = _ds(case["dims"])
         nd = (np.arange(int(np.prod(case["shape"])) if case["shape"] else 1, dtype=float) + 10).reshape(case["shape"])
+        if case.get("dtype"):
+            nd = nd.astype(case["dtype"])
         target = fd.FlodymArray(dims=dims, values=np.full(dims.shape, 3.0))
         try:
             if case["via"] == "ctor":
@@ -199,7 +207,7 @@ def oracle(case, ob):
                 return f"{case['dtype']} values: assigning a number to {k} raised {o['assign']}"
         return None
     if case.get("kind") == "shape":
-        tag = f"{case['via']} with an ndarray of shape {tuple(case['shape'])} for dimensions of shape {tuple(ob['want'])}"
+        tag = f"{case['via']} with an ndarray ({case.get('dtype', 'float64')}) of shape {tuple(case['shape'])} for dimensions of shape {tuple(ob['want'])}"
         if case["shape"] == ob["want"]:
             return None if ob["accepted"] else f"{tag}: refused ({ob['exc']}: {ob['msg'][:60]})"
         if ob["accepted"]:
